@@ -124,6 +124,16 @@ def tasks(tier):
                    loop=e.startswith("Async") or e == "adeco",
                    sleeper_async=e.startswith("Async") or e == "adeco")
         out.append({"family": "outcome-attempt-timeout", "cfg": cfg, "entry": e, "bound": 1})
+    # async: the successful attempt's return value is itself an awaitable object (a Task / Future
+    # handle the caller wants back): it is the outcome's value, not awaited by the runner
+    for M, rcf, e in itertools.product([1, 2, 3], [False, True],
+                                       ["AsyncRetry.execute", "AsyncPolicy.execute", "AsyncPolicy0.execute",
+                                        "AsyncRetryPolicy.execute"]):
+        if "0" in e and (rcf or M > 1):
+            continue
+        cfg = dict(M=M, alphabet=["ok", "x:T", "r:T"] if rcf else ["ok", "x:T"], ok_awaitable=True,
+                   max_unknown=None, force_rc=rcf, sleeper="call")
+        out.append({"family": "outcome-awaitable-value", "cfg": cfg, "entry": e, "bound": 1})
     # the sync attempt timeout on the library's REAL threads: the attempt that overran finishes
     # late (during the backoff sleep, after the next attempt has started, or after the call)
     late = ["ok", "x:T"] if tier == "quick" else ["ok", "x:T", "r:T"]
